@@ -375,6 +375,7 @@ func (w WebP) Bytes() ([]byte, *Map) {
 		body.Write(l[:])
 		body.Write(c.Data)
 		if len(c.Data)%2 == 1 {
+			m.Ends = append(m.Ends, 8+body.Len()) // the end of an odd payload, before its pad byte
 			body.WriteByte(0)
 		}
 		m.add("webp."+c.FourCC+".length", off+4, 4, true, "length")
